@@ -414,8 +414,18 @@ func init() {
 		}
 		return retExit(st, IfaceV{})
 	})
-	// debug formatting of messages is not the subject of the socket-level harnesses
-	stubs["github.com/uhppoted/uhppote-core/encoding/UTO311-L0x.Dump"] = func(e *Engine, st *State, fr *Frame, fn *ssa.Function, args []Value, pos token.Pos) []exit {
+	// debug formatting of messages is not the subject of the socket-level harnesses (it is called on every
+	// datagram, whatever its length); its own harness (C04) asks for the real body with verifInterpret
+	const dump = "github.com/uhppoted/uhppote-core/encoding/UTO311-L0x.Dump"
+	stubs[dump] = func(e *Engine, st *State, fr *Frame, fn *ssa.Function, args []Value, pos token.Pos) []exit {
+		if e.summaries["interpret:codec.Dump"] {
+			depth := 0
+			if fr != nil {
+				depth = fr.depth + 1
+			}
+			delete(e.stubsUsed, dump)
+			return e.runFunction(st, fn, args, nil, depth)
+		}
 		return retExit(st, StrV{Opaque: true, Note: "codec.Dump (debug text)"})
 	}
 }
